@@ -216,6 +216,25 @@ mod d {
     macro_rules! conc_step { ($nodes:expr, $progs:expr, $sched:expr) => {{ let _ = ($nodes, $progs, $sched); String::from("unsupported") }}; }
 
     macro_rules! edge_nth { ($n:expr, $p:expr) => { $n.iter_out().nth($p) }; }
+    // every traversal entry point the ownership channel does not store a result of, run and dropped at once (C19: none of
+    // them may leave a strong handle behind)
+    macro_rules! own_exercise {
+        ($a:expr) => {{
+            let a = $a;
+            let mut seen = 0usize;
+            let _ = a.bfs().search_cycle();
+            let _ = a.dfs().search_cycle();
+            let _ = a.pfs().search_cycle();
+            let _ = a.pfs().max().transpose().search_cycle();
+            let _ = a.bfs().transpose().search_cycle();
+            let _ = a.preorder().search_edges();
+            let _ = a.postorder().transpose().search_edges();
+            let _ = a.bfs().for_each(&mut |_e| { seen += 1; }).search_cycle();
+            let _ = a.dfs().filter(&mut |_e| true).search_cycle();
+            let _ = a.iter_out().count() + a.iter_in().count();
+            seen
+        }};
+    }
     macro_rules! pre_nodes { ($n:expr) => { $n.preorder().search_nodes() }; }
     macro_rules! post_nodes { ($n:expr) => { $n.postorder().search_nodes() }; }
     macro_rules! graph_cap { ($n:expr) => { Graph::with_capacity($n) }; }
@@ -235,6 +254,7 @@ mod d {
                 &|n| match na {
                     1 => Some(vec![("label".to_string(), format!("n{}\\l", n.key()))]),
                     2 if n.key().n() % 2 == 0 => Some(vec![("label".to_string(), format!("n{}\\l", n.key())), ("v".to_string(), format!("{}", n.value()))]),
+                    3 => Some(vec![]),   // a callback that builds its list conditionally and returns it empty: a plain statement
                     _ => None,
                 },
                 &|_u, _v, e| match ea {
@@ -243,6 +263,7 @@ mod d {
                     // direction-sensitive callbacks: the attribute names both endpoints in order / exists for one orientation only
                     3 => Some(vec![("p".to_string(), format!("{}>{}:{}", _u.key(), _v.key(), e))]),
                     4 if _u.key().n() < _v.key().n() => Some(vec![("w".to_string(), format!("{}", e))]),
+                    5 => Some(vec![]),
                     _ => None,
                 },
             )
@@ -265,6 +286,25 @@ mod sd {
     macro_rules! conc_step { ($nodes:expr, $progs:expr, $sched:expr) => { conc::run_sched($nodes, $progs, $sched) }; }
 
     macro_rules! edge_nth { ($n:expr, $p:expr) => { $n.iter_out().nth($p) }; }
+    // every traversal entry point the ownership channel does not store a result of, run and dropped at once (C19: none of
+    // them may leave a strong handle behind)
+    macro_rules! own_exercise {
+        ($a:expr) => {{
+            let a = $a;
+            let mut seen = 0usize;
+            let _ = a.bfs().search_cycle();
+            let _ = a.dfs().search_cycle();
+            let _ = a.pfs().search_cycle();
+            let _ = a.pfs().max().transpose().search_cycle();
+            let _ = a.bfs().transpose().search_cycle();
+            let _ = a.preorder().search_edges();
+            let _ = a.postorder().transpose().search_edges();
+            let _ = a.bfs().for_each(&mut |_e| { seen += 1; }).search_cycle();
+            let _ = a.dfs().filter(&mut |_e| true).search_cycle();
+            let _ = a.iter_out().count() + a.iter_in().count();
+            seen
+        }};
+    }
     macro_rules! pre_nodes { ($n:expr) => { $n.preorder().search_nodes() }; }
     macro_rules! post_nodes { ($n:expr) => { $n.postorder().search_nodes() }; }
     macro_rules! graph_cap { ($n:expr) => {{ let _ = $n; Graph::new() }}; }
@@ -284,6 +324,7 @@ mod sd {
                 &|n| match na {
                     1 => Some(vec![("label".to_string(), format!("n{}\\l", n.key()))]),
                     2 if n.key().n() % 2 == 0 => Some(vec![("label".to_string(), format!("n{}\\l", n.key())), ("v".to_string(), format!("{}", n.value()))]),
+                    3 => Some(vec![]),   // a callback that builds its list conditionally and returns it empty: a plain statement
                     _ => None,
                 },
                 &|_u, _v, e| match ea {
@@ -292,6 +333,7 @@ mod sd {
                     // direction-sensitive callbacks: the attribute names both endpoints in order / exists for one orientation only
                     3 => Some(vec![("p".to_string(), format!("{}>{}:{}", _u.key(), _v.key(), e))]),
                     4 if _u.key().n() < _v.key().n() => Some(vec![("w".to_string(), format!("{}", e))]),
+                    5 => Some(vec![]),
                     _ => None,
                 },
             )
@@ -304,8 +346,17 @@ mod sd {
     include!("own.rs");
     fn query_all(n: &Node<Kt, i64, Et>) {
         let _ = n.out_degree() + n.in_degree();
-        let _ = n.is_root() || n.is_leaf() || n.is_orphan();
-        let _ = n.is_connected(&Kt::of(2));
+        // each predicate is evaluated (no short circuit), and every lookup that hands out an edge or a node
+        let _ = (n.is_root() as u8) + (n.is_leaf() as u8) + (n.is_orphan() as u8);
+        for k in 1..=4u64 {
+            let _ = n.is_connected(&Kt::of(k));
+            if let Some(e) = n.find_outbound(&Kt::of(k)) {
+                if e.key().n() != k { panic!("find_outbound handed out a node with another key"); }
+            }
+            if let Some(e) = n.find_inbound(&Kt::of(k)) {
+                if e.key().n() != k { panic!("find_inbound handed out a node with another key"); }
+            }
+        }
     }
 
     fn conc_query(op: &str, n: &Node<Kt, i64, Et>) -> String {
@@ -348,6 +399,12 @@ mod sd {
         c += n.preorder().search_nodes().len();
         c += n.postorder().search_edges().len();
         c += n.postorder().transpose().search_nodes().len();
+        c += n.preorder().transpose().search_edges().len();
+        if let Some(p) = n.dfs().transpose().target(&t).search_path() { c += check_joined(&p.to_vec_edges()); }
+        if let Some(p) = n.pfs().transpose().target(&t).search_path() { c += check_joined(&p.to_vec_edges()); }
+        if let Some(p) = n.pfs().max().search_cycle() { c += check_joined(&p.to_vec_edges()); }
+        if n.pfs().target(&t).search().is_some() { c += 1; }
+        if let Some(p) = n.bfs().filter(&mut |e| e.value().n() % 2 == 0).target(&t).search_path() { c += check_joined(&p.to_vec_edges()); }
         let mut seen = 0usize;
         n.bfs().for_each(&mut |_e| { seen += 1; }).search();
         c + seen
@@ -365,6 +422,22 @@ mod u {
     macro_rules! conc_step { ($nodes:expr, $progs:expr, $sched:expr) => {{ let _ = ($nodes, $progs, $sched); String::from("unsupported") }}; }
 
     macro_rules! edge_nth { ($n:expr, $p:expr) => { $n.iter().nth($p) }; }
+    macro_rules! own_exercise {
+        ($a:expr) => {{
+            let a = $a;
+            let mut seen = 0usize;
+            let _ = a.bfs().search_cycle();
+            let _ = a.dfs().search_cycle();
+            let _ = a.pfs().search_cycle();
+            let _ = a.pfs().max().search_cycle();
+            let _ = a.order().pre().search_edges();
+            let _ = a.order().post().search_edges();
+            let _ = a.bfs().for_each(&mut |_e| { seen += 1; }).search_cycle();
+            let _ = a.dfs().filter(&mut |_e| true).search_cycle();
+            let _ = a.iter().count();
+            seen
+        }};
+    }
     macro_rules! pre_nodes { ($n:expr) => { $n.order().pre().search_nodes() }; }
     macro_rules! post_nodes { ($n:expr) => { $n.order().post().search_nodes() }; }
     macro_rules! graph_cap { ($n:expr) => {{ let _ = $n; Graph::new() }}; }
@@ -384,6 +457,7 @@ mod u {
                 &|n| match na {
                     1 => Some(vec![("label".to_string(), format!("n{}\\l", n.key()))]),
                     2 if n.key().n() % 2 == 0 => Some(vec![("label".to_string(), format!("n{}\\l", n.key())), ("v".to_string(), format!("{}", n.value()))]),
+                    3 => Some(vec![]),   // a callback that builds its list conditionally and returns it empty: a plain statement
                     _ => None,
                 },
                 &|_u, _v, e| match ea {
@@ -392,6 +466,7 @@ mod u {
                     // direction-sensitive callbacks: the attribute names both endpoints in order / exists for one orientation only
                     3 => Some(vec![("p".to_string(), format!("{}>{}:{}", _u.key(), _v.key(), e))]),
                     4 if _u.key().n() < _v.key().n() => Some(vec![("w".to_string(), format!("{}", e))]),
+                    5 => Some(vec![]),
                     _ => None,
                 },
             )
@@ -414,6 +489,22 @@ mod su {
     macro_rules! conc_step { ($nodes:expr, $progs:expr, $sched:expr) => { conc::run_sched($nodes, $progs, $sched) }; }
 
     macro_rules! edge_nth { ($n:expr, $p:expr) => { $n.iter().nth($p) }; }
+    macro_rules! own_exercise {
+        ($a:expr) => {{
+            let a = $a;
+            let mut seen = 0usize;
+            let _ = a.bfs().search_cycle();
+            let _ = a.dfs().search_cycle();
+            let _ = a.pfs().search_cycle();
+            let _ = a.pfs().max().search_cycle();
+            let _ = a.order().pre().search_edges();
+            let _ = a.order().post().search_edges();
+            let _ = a.bfs().for_each(&mut |_e| { seen += 1; }).search_cycle();
+            let _ = a.dfs().filter(&mut |_e| true).search_cycle();
+            let _ = a.iter().count();
+            seen
+        }};
+    }
     macro_rules! pre_nodes { ($n:expr) => { $n.order().pre().search_nodes() }; }
     macro_rules! post_nodes { ($n:expr) => { $n.order().post().search_nodes() }; }
     macro_rules! graph_cap { ($n:expr) => {{ let _ = $n; Graph::new() }}; }
@@ -435,7 +526,12 @@ mod su {
     fn query_all(n: &Node<Kt, i64, Et>) {
         let _ = n.degree();
         let _ = n.is_orphan();
-        let _ = n.is_connected(&Kt::of(2));
+        for k in 1..=4u64 {
+            let _ = n.is_connected(&Kt::of(k));
+            if let Some(e) = n.find_adjacent(&Kt::of(k)) {
+                if e.key().n() != k { panic!("find_adjacent handed out a node with another key"); }
+            }
+        }
     }
 
     fn conc_query(op: &str, n: &Node<Kt, i64, Et>) -> String {
@@ -471,6 +567,9 @@ mod su {
         if let Some(p) = n.dfs().search_cycle() { c += check_joined(&p.to_vec_edges()); }
         c += n.order().pre().search_nodes().len();
         c += n.order().post().search_edges().len();
+        if let Some(p) = n.pfs().max().search_cycle() { c += check_joined(&p.to_vec_edges()); }
+        if n.pfs().target(&t).search().is_some() { c += 1; }
+        if let Some(p) = n.bfs().filter(&mut |e| e.value().n() % 2 == 0).target(&t).search_path() { c += check_joined(&p.to_vec_edges()); }
         let mut seen = 0usize;
         n.bfs().for_each(&mut |_e| { seen += 1; }).search();
         c + seen
